@@ -274,13 +274,13 @@ func Spec() *core.Spec {
 		Families: []core.Family{
 			{Name: "directed", N: func(tier string) int {
 				if tier == core.Thorough {
-					return 6000
+					return 20000
 				}
 				return 200
 			}, Run: directed, Timeout: 30 * time.Second},
 			{Name: "stress", N: func(tier string) int {
 				if tier == core.Thorough {
-					return 3000
+					return 10000
 				}
 				return 40
 			}, Run: stress, Timeout: 60 * time.Second},
